@@ -6,6 +6,7 @@
 import Ladybug.DrvCore
 import Ladybug.Model.DesignDay
 import Ladybug.Model.DesignDayObj
+import Ladybug.Model.DDYShapes
 
 open Drv DD
 
@@ -71,13 +72,30 @@ def parseDec (s : String) : Option Rat :=
       let v := if 0 ≤ e10 then mant * ((10 ^ e10.toNat : Nat) : Rat) else mant / ((10 ^ (-e10).toNat : Nat) : Rat)
       some (if neg then -v else v)
 
+/-- Python's `int(text)` on the generated subset: surrounding blanks, an optional sign, decimal digits
+    (`int('07') == 7`, `int('+7') == 7`, `int('7.0')` raises). -/
+def pyInt? (s : String) : Option Int :=
+  let cs := (strip s).toList
+  let (neg, ds) := match cs with
+    | '-' :: r => (true, r)
+    | '+' :: r => (false, r)
+    | r => (false, r)
+  if ds.isEmpty || !ds.all Char.isDigit then none
+  else some (if neg then -((digitsVal ds : Nat) : Int) else ((digitsVal ds : Nat) : Int))
+
+#guard pyInt? "07" == some 7
+#guard pyInt? " +7 " == some 7
+#guard pyInt? "-12" == some (-12)
+#guard pyInt? "7.0" == none
+#guard pyInt? "" == none
+
 instance : Tok String String where
   ofStr := id
   ofNum := id
   ofNat := toString
   text := id
   num? := fun s => if (parseDec s).isSome then some (strip s) else none
-  int? := String.toInt?
+  int? := pyInt?
   isYes := fun s => s.toLower == "yes"
 
 instance : NumVal String where
@@ -276,6 +294,18 @@ def op? (t : List String) : Option (Op String) :=
         else if kind = "base" then do pure (SkyKind.base (← sArg? a1) (← sArg? a2))
         else none
       pure (.newSky (some ⟨mo, da, false, dst, k⟩))
+  | ["new_sky", m, d, dst, kind, a1, a2, a3, lp] =>
+    if m = "O" then some (.newSky none) else do
+      let mo ← intArg? m
+      let da ← intArg? d
+      let dst ← flag? dst
+      let k : SkyKind (Arg String) ←
+        if kind = "clear" then SkyKind.clear <$> arg? a1
+        else if kind = "tau" then do pure (SkyKind.tau (← arg? a1) (← arg? a2) (← flag? a3))
+        else if kind = "base" then do pure (SkyKind.base (← sArg? a1) (← sArg? a2))
+        else none
+      let leap ← flag? lp
+      pure (.newSky (some ⟨mo, da, leap, dst, k⟩))
   | _ => none
 
 /-- split a token list at the `;` tokens -/
@@ -322,6 +352,25 @@ def handle (toks : List String) : String :=
     match floatBits? c with
     | some c => showFloats (clearSkyCover c)
     | none => "bad-op"
+  | ["cdts", leap, mo, da] =>
+    -- date-times of the header of every hourly collection: minute of the year and leap flag of each
+    match date? leap mo da with
+    | some d => "ok " ++ joinSp ((collectionDatetimes d).map fun t => toString t.moy ++ (if t.leap then "L" else "C"))
+    | none => "bad-op"
+  | ["ddy_setter", kind, bits] =>
+    -- the `DDY.design_days` setter on an argument of the given container kind; items: 1 = a design day
+    let items := bits.toList.filter (fun c => c == '0' || c == '1') |>.map (fun c => c == '1')
+    let arg? : Option (Shapes.Iterable Bool) :=
+      if kind = "list" then some (.container true items)
+      else if kind = "container" then some (.container false items)
+      else if kind = "oneshot" then some (.oneShot items)
+      else none
+    match arg? with
+    | none => "bad-op"
+    | some arg =>
+      match Shapes.setDays (fun b => b) arg with
+      | .ok xs => "ok " ++ toString xs.length
+      | .error _ => "err:assert"
   | ["hdts", leap, mo, da] =>
     match date? leap mo da with
     | some d => showDts (hourlyDatetimesOff Gen.DD.hourlyDayOffset d)
